@@ -20,6 +20,7 @@ ASSUMPTIONS = ["operations only one side supports (optimized FQP * FQ raises Typ
                "common domain and are not generated",
                "sgn0 model: parity of the first non-zero coordinate (RFC 9380 section 4.1)"]
 ENGINE = "hypothesis (recursive expression trees) + exhaustive depth-1/2 trees on small fields"
+TECHNIQUE = ("differential property-based testing: Hypothesis expression trees and exhaustive small fields evaluated in the reference and the optimized classes")
 REQUIRED_LABELS = {t: ["tree:depth>=3", "node:div", "node:pow", "node:pow>=745bits", "node:int_mix",
                        "field:real:fq12", "field:small:fq12", "build:fq_coeffs", "cmp"]
                    for t in ("quick", "thorough")}
